@@ -13,10 +13,16 @@ Oracle: forward-mode dual numbers in the harness (oracle.py) vs gradient(e, v).e
         'differentiate while the parameter holds v0 (0, 1, default, near 0 / 1, generic) → Parameter.set(v1) → set(v2)':
         every tree obtained so far and the tree returned by a fresh gradient(e, v) are judged at the CURRENT values
         against dual numbers, on the recursive and on the explicit-stack path (param_history_oracle).
+        Handle family: the wrt object is equal BY NAME to the leaves but a different Python object (Variable re-created,
+        element of a re-created VectorVariable / MatrixVariable, copy, pickle; trees assembled by helpers that each made
+        their own objects) × call histories on the name-keyed memo (twin first on a cold memo then the original, original
+        then twin, no clearing, clear in between) × recursive / explicit-stack path; dual numbers w.r.t. the NAME
+        (twin_history_oracle).
 """
 from __future__ import annotations
 
 import math
+import re
 import warnings
 
 import numpy as np
@@ -1207,6 +1213,301 @@ def replay_param_history(f) -> bool:
     return r is None
 
 
+# ------------------------------------------------------------------ handles equal by NAME × histories on the name-keyed memo
+#
+# In optyx a variable IS its name: Variable.__eq__ / __hash__ compare names, evaluate() looks values up by name, and the
+# memo of the recursive differentiator is keyed on (expression, wrt) with wrt hashed BY NAME.  So "the derivative of e
+# with respect to v" is the derivative with respect to the NAME v.name, whichever Python object carries it.  Family:
+#   handle      the wrt object is equal by name to the leaves of e but a DIFFERENT object: Variable(name) again, an element
+#               of a re-created VectorVariable / MatrixVariable (general and symmetric), copy.copy, a pickle round trip;
+#   build       one model object per name, or "helpers": the tree is assembled from parts built by separate helpers that
+#               each created their own objects with the same names (then no single object is "the" leaf: wrt is one of
+#               them or a further one);
+#   tree        scalar leaves under + - * / ** and unary functions, vector / matrix elements used as scalar leaves, vector
+#               nodes beside scalar leaves and over element expressions, seeded random trees, a chain deeper than the
+#               recursion threshold;
+#   history     on the name-keyed memo: twin handle first on a cold memo, then the original; original first, then the twin;
+#               whatever the memo holds (no clearing), twin / original / another twin; original, clear, twin, original;
+#   path        memoised recursion / explicit stack (threshold forced to 0) / alternating.
+# After every request the returned tree is judged by dual numbers w.r.t. the handle's NAME at dyadic points.
+
+TW_PATHS = ("recursive", "iterative", "mixed")
+TW_HISTORIES = (
+    ("cold:twin,orig", ("clear", "twin", "orig")),
+    ("cold:orig,twin", ("clear", "orig", "twin")),
+    ("warm:twin,orig,twin2", ("twin", "orig", "twin2")),
+    ("orig,clear,twin,orig", ("orig", "clear", "twin", "orig")),
+    ("cold:twin,twin2,clear,orig,twin", ("clear", "twin", "twin2", "clear", "orig", "twin")),
+)
+_TW_VEC = re.compile(r"^(.*)\[(\d+)\]$")
+_TW_MAT = re.compile(r"^(.*)\[(\d+),(\d+)\]$")
+
+
+def clear_gradient_memos():
+    """empty every functools memo of the differentiator module (whatever they are called)"""
+    import optyx.core.autodiff as AD
+
+    for f in list(vars(AD).values()):
+        clear = getattr(f, "cache_clear", None)
+        if callable(clear):
+            clear()
+
+
+def twin_kinds(name):
+    """the ways of obtaining another handle for the variable called `name`"""
+    ks = ["recreated", "copy", "pickle"]
+    if _TW_VEC.match(name):
+        ks += ["vector-element", "reversed-vector-element"]
+    m = _TW_MAT.match(name)
+    if m:
+        ks.append("matrix-element")
+        if int(m.group(2)) <= int(m.group(3)):
+            ks.append("symmetric-matrix-element")
+    return ks
+
+
+def make_twin(kind, w):
+    """a Variable equal to w (same name) that is not the object w"""
+    import copy
+    import pickle
+    from optyx import MatrixVariable, Variable, VectorVariable
+
+    name = w.name
+    if kind == "copy":
+        t = copy.copy(w)
+    elif kind == "pickle":
+        t = pickle.loads(pickle.dumps(w))
+    elif kind == "vector-element":
+        m = _TW_VEC.match(name)
+        t = VectorVariable(m.group(1), int(m.group(2)) + 2)[int(m.group(2))]
+    elif kind == "reversed-vector-element":
+        m = _TW_VEC.match(name)
+        t = VectorVariable(m.group(1), int(m.group(2)) + 1)[::-1][0]
+    elif kind in ("matrix-element", "symmetric-matrix-element"):
+        m = _TW_MAT.match(name)
+        i, j = int(m.group(2)), int(m.group(3))
+        k = max(i, j) + 1
+        t = MatrixVariable(m.group(1), k, k, symmetric=True)[i, j] if kind.startswith("sym") else \
+            MatrixVariable(m.group(1), i + 1, j + 1)[i, j]
+    else:
+        t = Variable(name)
+    if t is w or t.name != name or not (t == w) or hash(t) != hash(w):
+        raise AssertionError(f"harness: make_twin({kind}) did not produce an equal, non-identical handle for {name}")
+    return t
+
+
+def leaf_objects(e):
+    """name -> the DISTINCT Variable objects carrying that name inside e, in a deterministic traversal order
+    (explicit stack, independent of optyx's own traversals)"""
+    from optyx.core.expressions import BinaryOp, UnaryOp, Variable
+
+    out, seen, stack = {}, set(), [e]
+    while stack:
+        n = stack.pop()
+        if id(n) in seen:
+            continue
+        seen.add(id(n))
+        if isinstance(n, Variable):
+            out.setdefault(n.name, []).append(n)
+        elif isinstance(n, BinaryOp):
+            stack += [n.right, n.left]
+        elif isinstance(n, UnaryOp):
+            stack.append(n.operand)
+        else:
+            for attr in ("matrix", "expression", "right", "left", "vector"):
+                sub = getattr(n, attr, None)
+                if sub is None:
+                    continue
+                if hasattr(sub, "_expressions"):
+                    ex = sub._expressions
+                    stack += [y for row in ex for y in (row if isinstance(row, list) else [row])][::-1]
+                elif hasattr(sub, "_variables"):
+                    vs = sub._variables
+                    stack += [y for row in vs for y in (row if isinstance(row, list) else [row])][::-1]
+                elif hasattr(sub, "evaluate"):
+                    stack.append(sub)
+    return out
+
+
+def twin_templates(rng, full):
+    """[(tag, tree)] on fresh objects; 'helpers:*' are assembled from two universes with the same names"""
+    from optyx.core.expressions import Constant as C
+    from optyx.core.functions import exp, sin, tanh
+    from optyx.core import vectors as V
+    from optyx.core import matrices as M
+
+    U, U2 = gen.Universe(rng), gen.Universe(rng)
+    a, b = U.scalars[:2]
+    a2, b2 = U2.scalars[:2]
+    x, x2, n = U.x, U2.x, U.n
+    cs = np.array([2.0, -1.0, 0.5][:n] + [1.0] * max(0, n - 3))
+    Q = np.array([[(i + 1.0) * (j - 1.0) + (0.5 if i == j else 0.0) for j in range(n)] for i in range(n)])
+    T = [
+        ("leaf", a),
+        ("prod-quot", a * a * b + sin(a) / (1.0 + b * b)),
+        ("chain", exp(a * b * 0.25) * tanh(a - b) - a),
+        ("pow", (a * a + 1.0) ** 1.5 + b ** 3 * a),
+        ("vec-elems", x[0] * x[1] + exp(x[2] * 0.5) * x[1] ** 2),
+        ("mat-elems", U.M[0, 1] * U.M[1, 0] + U.S[0, 1] ** 2 * U.M[0, 0] + U.S[1, 1] * U.S[0, 1]),
+        ("node*leaf", x.dot(x) * x[0] + V.VectorSum(x) * a + a * a),
+        ("exprsum", V.VectorExpression([sin(v) * a for v in x]).sum() + x[1]),
+        ("lc-of-exprs", V.LinearCombination(cs, V.VectorExpression([a * v + v * v for v in x]))),
+        ("l2*leaf", V.L2Norm(x + 1.5) * x[1] + M.QuadraticForm(x, Q) * a),
+        ("msum*leaf", (U.M * U.M).sum() * U.M[0, 1] + U.S.sum() * U.S[0, 1]),
+        ("helpers:sum", (a * a * b) + (sin(a2) * b2 + a2)),
+        ("helpers:prod", (a + 2.0 * b) * (a2 * b2 + 1.5)),
+        ("helpers:quot", (a * b + 1.0) / (a2 * a2 + b2 * b2 + 1.0)),
+        ("helpers:vec", x[0] * x[1] + x2[1] * x2[1] * x2[2]),
+        ("helpers:node+leaves", x.dot(x) + x2[0] * x2[1] * 3.0),
+        ("helpers:dot", V.DotProduct(x, x2) + V.DotProduct(x + 1.0, V.VectorExpression([v * v for v in x2]))),
+        ("helpers:mat", U.M[0, 1] * U2.M[0, 1] + U.S[0, 1] * U2.S[1, 1] * U2.S[0, 1]),
+    ]
+    for i in range(16 if full else 6):
+        T.append((f"rand{i}", gen.rand_expr(rng, U, rng.randint(1, 4), safe=True)))
+    for i in range(12 if full else 4):
+        l, r = gen.rand_expr(rng, U, rng.randint(1, 3), safe=True), gen.rand_expr(rng, U2, rng.randint(1, 3), safe=True)
+        T.append((f"helpers:rand{i}", l * r if i % 2 else l + r))
+
+    def chain(start, p, q_, m=430):
+        acc = start
+        for i in range(m):
+            acc = acc + C(((i % 7) - 3) / 8.0) * (q_ if i % 2 else p) * (p if i % 3 == 0 else C(1.0))
+        return acc
+
+    T.append(("deep:chain", chain(a * b, a, b)))
+    T.append(("helpers:deep:chain", chain(a * b, a2, b)))
+    return T, U
+
+
+def run_twin_history(e, objs, kind, steps, path, points, offset=0):
+    """one history of requests gradient(e, handle) for ONE name.  objs: the leaf objects of e carrying the name (or the
+    single absent handle); steps: 'clear' | 'orig' (the next of objs) | 'twin' / 'twin2' (equal handles made by `kind`).
+    returns (failure | None, oracle evaluations, skipped)"""
+    n_chk = n_skip = 0
+    k = offset
+    twins = {}
+    for i, st in enumerate(steps):
+        if st == "clear":
+            clear_gradient_memos()
+            continue
+        if st == "orig":
+            h = objs[k % len(objs)]
+            k += 1
+        else:
+            if st not in twins:
+                twins[st] = make_twin(kind, objs[0])
+            h = twins[st]
+        try:
+            g = _request_gradient(e, h, path, i)
+        except Exception as ex:  # noqa: BLE001
+            return ({"what": f"gradient() raised {type(ex).__name__} for a handle equal by name to the leaves",
+                     "error": str(ex)[:200], "step": i, "handle": st}, n_chk, n_skip)
+        for pt in points:
+            r = numeric_check(e, h, pt, g=g)
+            n_chk += 1
+            if r == "skip":
+                n_skip += 1
+            elif r is not None:
+                what = ("gradient(e, v) for a handle v equal BY NAME to leaves of e (a different Python object) is not the "
+                        "partial derivative with respect to that name") if st != "orig" else \
+                       ("gradient(e, v) through a leaf object of e is not the partial derivative with respect to its name "
+                        "(history of calls through equal handles / other equal leaf objects in e)")
+                r.update({"what": what, "point": pt, "step": i, "handle": st})
+                return r, n_chk, n_skip
+    return None, n_chk, n_skip
+
+
+def _tw_ser(e):
+    import sys
+
+    old = sys.getrecursionlimit()
+    sys.setrecursionlimit(max(old, 20000))
+    try:
+        return ser(e)
+    except Unsupported as ex:
+        return f"unsupported:{ex}"
+    finally:
+        sys.setrecursionlimit(old)
+
+
+def twin_history_oracle(rng, full, rep=None, limit=None):
+    """templates × names (occurring, and one absent) × handle kinds × histories × paths; every history on a freshly
+    built tree.  returns (failures, runs, oracle evaluations)"""
+    fails, n_runs, n_chk = [], 0, 0
+    tags = [t for t, _ in twin_templates(rng, full)[0]]
+    for tag in tags:
+        deep = "deep:" in tag
+        hists = list(TW_HISTORIES) if (full or not deep) else list(TW_HISTORIES[:2])
+        paths = TW_PATHS if full else (("recursive",) if deep else ("recursive", rng.choice(TW_PATHS[1:])))
+        failed = False
+        for hname, steps in hists:
+            for path in paths:
+                T, U = twin_templates(rng, full)
+                e = dict(T)[tag]
+                leaves = leaf_objects(e)
+                if not leaves:
+                    continue
+                names = sorted(leaves)
+                picks = names if (full and len(names) <= 3) else rng.sample(names, min(2, len(names)))
+                absent = [v for v in U.all_vars() if v.name not in leaves]
+                targets = [(nm, leaves[nm]) for nm in picks]
+                if absent and not deep and rng.random() < 0.5:
+                    v = rng.choice(absent)
+                    targets.append((v.name, [v]))
+                for nm, objs in targets:
+                    kind = rng.choice(twin_kinds(nm))
+                    offset = rng.randint(0, max(0, len(objs) - 1))
+                    pts = [gen.rand_point(rng, [_Name(m) for m in sorted(set(names) | {nm})]) for _ in range(2)]
+                    r, c, sk = run_twin_history(e, objs, kind, steps, path, pts, offset)
+                    n_runs += 1
+                    n_chk += c
+                    if rep is not None and sk:
+                        rep.skipped["twin-irregular-point"] = rep.skipped.get("twin-irregular-point", 0) + sk
+                    if r is not None:
+                        r.update({"kind": "twin-history", "family": "twin:" + tag, "expr": _tw_ser(e), "wrt": nm,
+                                  "twin_kind": kind, "history_name": hname, "history": list(steps), "path": path,
+                                  "orig_offset": offset, "leaf_objects_with_that_name": len(objs)})
+                        fails.append(r)
+                        if limit is not None and len(fails) >= limit:
+                            return fails, n_runs, n_chk
+                        failed = True
+                        break
+                if failed:
+                    break
+            if failed:
+                break       # one failure per template is enough
+    return fails, n_runs, n_chk
+
+
+class _Name:
+    """lightweight name carrier for gen.rand_point"""
+
+    def __init__(self, n):
+        self.name = n
+
+
+def replay_twin_history(f) -> bool:
+    """rebuild the tree from its serialisation (object identities restored from the oids), re-run the history"""
+    import sys
+    from optyx import Variable
+    from ser import Deser
+
+    old = sys.getrecursionlimit()
+    sys.setrecursionlimit(max(old, 20000))
+    try:
+        e = deser(f["expr"], Deser())
+    finally:
+        sys.setrecursionlimit(old)
+    objs = leaf_objects(e).get(f["wrt"]) or [Variable(f["wrt"])]
+    pt = {k: float(v) for k, v in f["point"].items()}
+    clear_gradient_memos()
+    r, n, _ = run_twin_history(e, objs, f["twin_kind"], f["history"], f.get("path", "recursive"), [pt],
+                               int(f.get("orig_offset", 0)))
+    print("history:", f["history"], "twin kind:", f["twin_kind"], "path:", f.get("path"), "oracle evaluations:", n)
+    print("result:", r)
+    return r is None
+
+
 def run(ctx) -> core.Report:
     rng = ctx["rng"]
     thorough = ctx["tier"] == "thorough" or ctx["escalate"]
@@ -1215,7 +1516,9 @@ def run(ctx) -> core.Report:
                            "trees + magnitude family (constants tiny / within 1e-15..1e-6 of ±1 / huge in every "
                            "multiplicative, chain, exponent and coefficient position, relative dual-number oracle) + Parameters in "
                            "every position × differentiate / Parameter.set / re-evaluate old and re-requested trees at the "
-                           "current values (first differentiation at exactly 0 / 1 / default, both differentiator paths); "
+                           "current values (first differentiation at exactly 0 / 1 / default, both differentiator paths) + wrt handles "
+                           "equal by name but not identical to the leaves (re-created Variable / container element / copy / "
+                           "per-helper objects) × call histories on the name-keyed memo × paths; "
                            "non-trivial = distinct (expression, wrt) whose gradient is not the literal 0")
     cases = []
     for tag, e, w in cell_cover(rng):
@@ -1270,6 +1573,14 @@ def run(ctx) -> core.Report:
             if vs:
                 cases.append((f"phist{int(v0p)}:{tag}", e, rng.choice(vs), False))
 
+    # wrt handles equal by name to the leaves but different objects (the model's leaf rule compares names)
+    T_tw, _U_tw = twin_templates(rng, thorough)
+    for tag, e in T_tw:
+        if "deep:" in tag:
+            continue
+        for nm, objs in sorted(leaf_objects(e).items())[:3]:
+            cases.append(("twin:" + tag, e, make_twin(rng.choice(twin_kinds(nm)), objs[0]), False))
+
     ids = Ids()
     lines, metas = [], []
     for tag, e, w, safe in cases:
@@ -1303,6 +1614,17 @@ def run(ctx) -> core.Report:
                                         "expr": s, "wrt": w.name, "got": py["gradient"][:300]})
         if len(rep.samples) < 6 and model != "(c 0)" and len(s) < 200:
             rep.samples.append({"expr": s, "wrt": w.name, "gradient": model})
+
+    # (the requests through equal handles above / below must not decide what the other families see: their failures
+    # are replayed in a fresh process)
+    clear_gradient_memos()
+    # handles equal by name (re-created Variable / container element / copy / helpers with their own objects) × call
+    # histories on the name-keyed memo × differentiator paths, judged by dual numbers w.r.t. the NAME
+    fails, n_runs, n_chk = twin_history_oracle(rng, thorough, rep, limit=10)
+    rep.oracle_failures.extend(fails)
+    rep.histogram["twin_history_runs"] = n_runs
+    rep.histogram["twin_history_oracle_points"] = n_chk
+    clear_gradient_memos()
 
     # numeric oracle on the regular-by-construction subset + all cell-cover cases
     n_num = 0
@@ -1372,6 +1694,9 @@ def search(ctx, rep):
                 if r not in (None, "skip"):
                     r.update({"expr": mm["expr"], "wrt": w.name, "point": pt})
                     return r
+    fails, _, _ = twin_history_oracle(rng, True, limit=1)
+    if fails:
+        return fails[0]
     fails, _, _ = param_history_oracle(rng, True, limit=1)
     if fails:
         return fails[0]
@@ -1398,6 +1723,8 @@ def replay(payload) -> bool:
     f = payload["failure"]
     if f.get("kind") == "param-history":
         return replay_param_history(f)
+    if f.get("kind") == "twin-history":
+        return replay_twin_history(f)
     e = deser(f["expr"])
     from optyx import Variable
 
